@@ -198,14 +198,17 @@ impl Field {
         width_fields: &HashMap<String, WidthField>,
     ) -> Tokens<Java> {
         match self {
-            Field::Integral { name, ty, .. } if self.is_width() => {
+            Field::Integral { name, ty, width, .. } if self.is_width() => {
                 let arr_name = name
                     .strip_suffix("Size")
                     .unwrap_or_else(|| name.strip_suffix("Count").unwrap());
 
+                // The value comes out of its chunk with the narrowest type that fits the
+                // field: widen it explicitly, assigning a byte or short to the int that
+                // holds a size or count would sign-extend.
                 let t = ExprTree::new();
                 t.gen_expr(t.sub(
-                    t.symbol(quote!($expr), *ty),
+                    t.cast(t.symbol(quote!($expr), Integral::fitting(*width)), *ty),
                     t.num(width_fields.get(arr_name).unwrap().modifier().unwrap_or(0)),
                 ))
             }
